@@ -285,6 +285,8 @@ class FileStreamReaderWrapper(StreamWrapper):
         if data:
             await self.stream.seek(offset + (self.position - start))
             buf = await self.stream.read(length)
+            if len(buf) < length:
+                raise tarfile.ReadError("unexpected end of data")
             self.position += len(buf)
             return buf
         else:
@@ -1137,14 +1139,14 @@ class AioTarStream:
                     self._dbg(2, f"0x{self.offset:X}: {e}")
                     self.offset += tarfile.BLOCKSIZE
                     continue
-                elif self.offset == 0:
-                    raise tarfile.ReadError(str(e)) from None
+                raise tarfile.ReadError(str(e)) from None
             except tarfile.EmptyHeaderError:
                 if self.offset == 0:
                     raise tarfile.ReadError("empty file") from None
+                # A complete tar stream always ends with a zero block
+                raise tarfile.ReadError("unexpected end of archive") from None
             except tarfile.TruncatedHeaderError as e:
-                if self.offset == 0:
-                    raise tarfile.ReadError(str(e)) from None
+                raise tarfile.ReadError(str(e)) from None
             except tarfile.SubsequentHeaderError as e:
                 raise tarfile.ReadError(str(e)) from None
             except Exception as e:
